@@ -4,19 +4,20 @@ From Chum Require Import Total Refine Corollaries.
 
 (* For every grammar, context, input, error type (zero-sized included), mode, start state and fuel:
    a failing (sub-)parser always leaves a pending error, and therefore neither the recovery
-   strategies' nor map_err's `take_alt().unwrap()` can fire. *)
+   strategies', map_err's nor InputRef::parse / InputRef::check's (extension parsers) `take_alt().unwrap()` can fire. *)
 Theorem C20_failure_leaves_error_and_unwraps_never_fire :
   forall K toks spn n m g ctx s,
     (fst (go no_quirks K toks spn n m g ctx s) = Err -> alt (snd (go no_quirks K toks spn n m g ctx s)) <> None) /\
     fst (go no_quirks K toks spn n m g ctx s) <> Panic PUnwrapRecovery /\
-    fst (go no_quirks K toks spn n m g ctx s) <> Panic PUnwrapMapErr.
+    fst (go no_quirks K toks spn n m g ctx s) <> Panic PUnwrapMapErr /\
+    fst (go no_quirks K toks spn n m g ctx s) <> Panic PUnwrapInputRef.
 Proof. exact go_good. Qed.
 
 (* parse() / check(): a ParseResult is produced; without output there is at least one error *)
 Theorem C20_top_level_reports_failure :
   forall K toks spn n m g,
     match run_top no_quirks K toks spn n m g with
-    | TPanic k => k <> PUnwrapRecovery /\ k <> PUnwrapMapErr
+    | TPanic k => k <> PUnwrapRecovery /\ k <> PUnwrapMapErr /\ k <> PUnwrapInputRef
     | TRes None errs => errs <> []
     | _ => True
     end.
